@@ -56,6 +56,9 @@ pub fn chunk_blocks(limit: usize) -> Vec<(String, Vec<u8>)> {
 pub struct RawBlock {
     pub tag: u64,
     pub header: Span,
+    /// the arrays of bodies / witness sets as a whole (Shelley+)
+    pub bodies_arr: Span,
+    pub wits_arr: Span,
     /// per transaction: body span, witness span
     pub bodies: Vec<Span>,
     pub wits: Vec<Span>,
@@ -90,6 +93,8 @@ pub fn parse_block(buf: &[u8]) -> Result<RawBlock, String> {
     let mut rb = RawBlock {
         tag,
         header: span(&blk[0]),
+        bodies_arr: (0, 0),
+        wits_arr: (0, 0),
         bodies: vec![],
         wits: vec![],
         aux: BTreeMap::new(),
@@ -108,6 +113,8 @@ pub fn parse_block(buf: &[u8]) -> Result<RawBlock, String> {
             }
         }
         2..=7 => {
+            rb.bodies_arr = span(&blk[1]);
+            rb.wits_arr = span(blk.get(2).ok_or("witnesses")?);
             for b in blk.get(1).ok_or("bodies")?.array()? {
                 rb.bodies.push(span(b));
             }
